@@ -352,6 +352,9 @@ fn oracle_lin(ctx: &mut Ctx, tag: &str, lin: Lin, fit: &Mat, p: usize, yf: &Mat,
                         tally(t, &format!("skipped:{}:unit_var:ill_conditioned", tag));
                     } else {
                         tally(t, &format!("judged:{}:unit_var:{}", tag, cls));
+                        if cls == "regular" {
+                            tally(t, &format!("cov:judged:{}:unit_var", tag));
+                        }
                         ctx.require((ysd * ysd - 1.0).abs() <= tol, "standard_unit_var", &class, || format!("column {}: variance of output {:e} (tol {:e}); input {:?}", j, ysd * ysd, tol, c));
                     }
                 } else {
@@ -367,6 +370,9 @@ fn oracle_lin(ctx: &mut Ctx, tag: &str, lin: Lin, fit: &Mat, p: usize, yf: &Mat,
                     continue;
                 }
                 tally(t, &format!("judged:{}:range:{}", tag, cls));
+                if cls == "regular" {
+                    tally(t, &format!("cov:judged:{}:range", tag));
+                }
                 let tol = 8.0 * e * (lo.abs() + hi.abs() + (hi - lo));
                 ctx.require((ymn - lo).abs() <= tol && (ymx - hi).abs() <= tol, "minmax_range_attained", &class, || {
                     format!("column {}: output spans [{:e}, {:e}], requested [{:e}, {:e}] (tol {:e}); input {:?}", j, ymn, ymx, lo, hi, tol, c)
@@ -379,6 +385,9 @@ fn oracle_lin(ctx: &mut Ctx, tag: &str, lin: Lin, fit: &Mat, p: usize, yf: &Mat,
                     continue;
                 }
                 tally(t, &format!("judged:{}:maxabs:{}", tag, cls));
+                if cls == "regular" {
+                    tally(t, &format!("cov:judged:{}:maxabs", tag));
+                }
                 ctx.require((yma - 1.0).abs() <= 4.0 * e, "maxabs_one", &class, || format!("column {}: max |output| {:e}; input {:?}", j, yma, c));
             }
         }
@@ -482,6 +491,10 @@ fn run_lin<F: Float>(ctx: &mut Ctx, tag: &str, lin: Lin, form: Form, fit: &Mat, 
         Ok(sc) => sc,
     };
     tally(t, &format!("fitted:{}:via={}:layf={}", tag, form.via, form.layf.tag()));
+    // coarse totals: the keys the coverage floors are put on (the fine ones above are too small to be stable)
+    tally(t, &format!("cov:fit:{}", tag));
+    tally(t, &format!("cov:via={}", form.via));
+    tally(t, &format!("cov:layf={}", form.layf.tag()));
     let fa: Array2<F> = to_arr_lay(fit, pf, form.layf);
     let fm = to_mat(&fa);
     let yf = sc.transform(fa);
@@ -492,6 +505,7 @@ fn run_lin<F: Float>(ctx: &mut Ctx, tag: &str, lin: Lin, form: Form, fit: &Mat, 
     let xm = to_mat(&xa);
     let y = sc.transform(xa.clone());
     tally(t, &format!("transformed:{}:layx={}", tag, form.layx.tag()));
+    tally(t, &format!("cov:layx={}", form.layx.tag()));
     let ym = to_mat(&y);
     if px == pf {
         oracle_affine(ctx, tag, lin, &sc, &xm, &ym, e);
@@ -634,10 +648,14 @@ fn run_norm<F: Float>(ctx: &mut Ctx, tag: &str, kind: &str, x: &Mat, p: usize, l
             };
             let tol = 4.0 * (p as f64 + 2.0) * e;
             tally(t, &format!("judged:{}:unit:{}:{}", tag, kind, rc));
+            if rc == "nonzero" {
+                tally(t, &format!("cov:judged:{}:unit:{}", tag, kind));
+            }
             ctx.require((nrm - 1.0).abs() <= tol, "norm_unit", &class, || format!("row {} = {:?}: output norm {:e} (tol {:e})", i, r, nrm, tol));
         }
     }
     oracle_rowwise(ctx, &format!("{}:kind={}", tag, kind), &xa, &y, sel, true, &|a| sc.transform(a));
+    tally(t, &format!("cov:norm:lay={}", lay.tag()));
     ym
 }
 
@@ -840,6 +858,7 @@ fn judge_whitener<F: Float>(ctx: &mut Ctx, class: &str, tag: &str, method: &str,
         }
         if tol < 0.05 {
             tally(t, &format!("judged:{}:identity_cov:{}", tag, method));
+            tally(t, &(if tag == "whiten" { format!("cov:judged:whiten:identity_cov:{}", method) } else { format!("cov:judged:{}:identity_cov", tag) }));
             tally(t, &format!("margin:{}:{}:1e{}", tag, method, (worst / tol).max(1e-9).log10().ceil() as i64));
             ctx.require(worst <= tol, "whiten_identity_cov", class, || format!("covariance of the whitened training data deviates from I by {:e} (tol {:e}, cond {:e})", worst, tol, cond));
         } else {
@@ -875,6 +894,7 @@ fn judge_whitener<F: Float>(ctx: &mut Ctx, class: &str, tag: &str, method: &str,
         }
         let tol = 128.0 * e * cond.max(1.0) + 65536.0 * e;
         tally(t, &format!("judged:{}:method_shape:{}", tag, method));
+        tally(t, &format!("cov:judged:{}:method_shape", tag));
         tally(t, &format!("shape_margin:{}:{}:1e{}", tag, method, (dev / tol).max(1e-9).log10().ceil() as i64));
         ctx.require(dev <= tol, "whitening_method_shape", class, || format!("the matrix of method {} deviates from the method's shape (orthogonal rows / symmetric / upper triangular) by {:e} (tol {:e})", method, dev, tol));
     }
@@ -882,6 +902,10 @@ fn judge_whitener<F: Float>(ctx: &mut Ctx, class: &str, tag: &str, method: &str,
     let xm = to_mat(&xa);
     let y = fw.transform(xa.clone());
     tally(t, &format!("transformed:{}:{}:layx={}", tag, method, form.layx.tag()));
+    if tag == "whiten" {
+        // (the f32 twin's per-layout counts are below 25: evidence only, no floor)
+        tally(t, &format!("cov:{}:layx={}", tag, form.layx.tag()));
+    }
     oracle_rowwise(ctx, class, &xa, &y, sel, false, &|a| fw.transform(a));
     // the fixed affine map from the accessors: y = (x - mean()) . transformation_matrix()^T
     let mean: Vec<f64> = fw.mean().iter().map(|v| v.to_f64().unwrap()).collect();
@@ -952,12 +976,12 @@ fn op_whiten(em: &mut Em, rng: &mut Rng, stream: Stream, f32_too: bool, forced: 
     };
     let w_ok = w.as_ref().map_or(false, |w| w.iter().flatten().all(|v| v.is_finite()) && w.iter().all(|r| r.len() == p));
     let scale_class = match extreme {
-        Some(v) if v < 1.0 => ":scale=1e-10",
-        Some(_) => ":scale=1e9",
-        None => "",
+        Some(v) if v < 1e-9 => ":scale=1e-10",
+        Some(v) if v > 1e8 => ":scale=1e9",
+        _ => "",
     };
-    if extreme.is_some() {
-        em.count(&format!("whiten{}", scale_class));
+    if let Some(v) = extreme {
+        em.count(&format!("whiten:probe_magnitude={:e}", v));
     }
     let class = format!("whiten:method={}:{}{}", method, if full_rank { "full_rank" } else { "rank_deficient" }, scale_class);
     let t: Tally = RefCell::new(vec![]);
@@ -983,6 +1007,9 @@ fn op_whiten(em: &mut Em, rng: &mut Rng, stream: Stream, f32_too: bool, forced: 
                 Ok(fw) => fw,
             };
             tally(&t, &format!("fitted:whiten:{}:via={}:layf={}", method, form.via, form.layf.tag()));
+            tally(&t, &format!("cov:fit:whiten:{}", method));
+            tally(&t, &format!("cov:whiten:via={}", form.via));
+            tally(&t, &format!("cov:whiten:layf={}", form.layf.tag()));
             ctx.require(to_mat(&fw.transformation_matrix().to_owned()).iter().flatten().zip(wm.iter().flatten()).all(|(a, b)| a.to_bits() == b.to_bits()), "deterministic_fit", &class, || "two fits on the same data gave different matrices".to_string());
             let (mean, yk) = judge_whitener::<f64>(ctx, &class, "whiten", method, &fw, &fit, &x, p, form, full_rank, cond, &sel, &t);
             // the products differ from the model only by the summation order of the matrix kernel: every
@@ -1021,6 +1048,7 @@ fn op_whiten(em: &mut Em, rng: &mut Rng, stream: Stream, f32_too: bool, forced: 
                 return "-".to_string();
             }
             tally(&t, &format!("fitted:whiten32:{}", method));
+            tally(&t, "cov:fit:whiten32");
             judge_whitener::<f32>(ctx, &class32, "whiten32", method, &fw, &fit32, &x32, p, form, fr, cond32, &sel32, &t);
             "-".to_string()
         });
@@ -1136,6 +1164,7 @@ fn op_ds(em: &mut Em, rng: &mut Rng) {
         let ta = Array2::from_shape_fn((n, t), |(i, c)| tg[i][c] as f64);
         let (out, arr) = if f32c { ds_forms::<f32>(kind, variant, &recs, p, lay, &ta, &w, &fnm, &tn, view) } else { ds_forms::<f64>(kind, variant, &recs, p, lay, &ta, &w, &fnm, &tn, view) };
         tally(&t_, &format!("ds_ok:{}", kind));
+        tally(&t_, "cov:ds_ok");
         ctx.require(out.tg == tg, "metadata_passthrough", &class, || format!("targets changed: {:?}", out.tg));
         ctx.require(out.w == w, "metadata_passthrough", &class, || format!("weights changed: {:?} -> {:?}", w, out.w));
         ctx.require(out.fnm == fnm.iter().map(|v| v.to_string()).collect::<Vec<_>>(), "metadata_passthrough", &class, || format!("feature names changed: {:?}", out.fnm));
@@ -1204,7 +1233,8 @@ pub fn run(em: &mut Em, rng: &mut Rng) {
     }
     for _ in 0..(4 * scale) {
         for method in ["pca", "zca", "chol"] {
-            for mag in [1e-10, 1e9] {
+            // 1e-10 / 1e9: beyond the absolute floors (open findings); 1e-6 .. 1e6: well inside, must whiten
+            for mag in [1e-10, 1e9, 1e-6, 1e-5, 1e6] {
                 op_whiten(em, rng, Stream::Generic, false, Some((method, mag)));
             }
         }
